@@ -301,6 +301,10 @@ func (s fsSpec) materialise(path string, id *int) error {
 		return syscall.Mkfifo(path, 0o644)
 	case "S":
 		return syscall.Mknod(path, syscall.S_IFSOCK|0o644, 0)
+	case "C":
+		// a character device: a clone of /dev/null (1,3) - harmless if a faulty
+		// importer opens it
+		return syscall.Mknod(path, syscall.S_IFCHR|0o666, 1<<8|3)
 	}
 	return fmt.Errorf("unknown kind %s", s.Kind)
 }
@@ -432,7 +436,10 @@ func (c fsCase) run(base string, idx int, viol func(sig, detail string)) {
 	defer os.RemoveAll(dir)
 	root := filepath.Join(dir, "root")
 	id := idx * 100
-	if err := c.Root.materialise(root, &id); err != nil {
+	if c.Root.Kind == "Cdev" {
+		// the system's own /dev/null as the import root (needs no privilege)
+		root = "/dev/null"
+	} else if err := c.Root.materialise(root, &id); err != nil {
 		viol("harness-materialise", fmt.Sprintf("%s: %v", c.Root, err))
 		return
 	}
@@ -491,7 +498,7 @@ func kindOfDiff(d string) string {
 }
 
 func runC18(r *core.Run) {
-	r.Rule("bounded-exhaustive: every rooted tree with <= 5 (quick) / 6 (thorough) nodes over {directory incl. empty, empty file, 5-byte file, relative/absolute/dangling symlink} with names {a,'b c','é','0'} materialised on a scratch directory, imported with BuildUnixFSRecursive and read back through Reify (symlink nodes decoded by the model) vs an independent Lstat/ReadDir/Readlink/ReadFile walk; fixed large cases: directory estimate just below/above the auto-shard threshold, multi-chunk file, file and symlink roots; rejection: every tree (<= 4/5 nodes) with a FIFO or unix socket added at every directory position must give an error and no link")
+	r.Rule("bounded-exhaustive: every rooted tree with <= 5 (quick) / 6 (thorough) nodes over {directory incl. empty, empty file, 5-byte file, relative/absolute/dangling symlink} with names {a,'b c','é','0'} materialised on a scratch directory, imported with BuildUnixFSRecursive and read back through Reify (symlink nodes decoded by the model) vs an independent Lstat/ReadDir/Readlink/ReadFile walk; fixed large cases: directory estimate just below/above the auto-shard threshold, multi-chunk file, file and symlink roots; rejection: every tree (<= 4/5 nodes) with a FIFO or unix socket (and, where mknod is permitted, a character device; /dev/null as root) added at every directory position must give an error and no link")
 	// an import needs a handful of descriptors at a time, however many entries a
 	// directory has: the whole check runs with a soft limit of 512 open files
 	// (the fixtures include directories of 1030..1111 files), so that an importer
@@ -523,6 +530,25 @@ func runC18(r *core.Run) {
 		}
 	}
 	cases = append(cases, fsCase{Root: fsSpec{Kind: "P"}, Reject: true}, fsCase{Root: fsSpec{Kind: "S"}, Reject: true})
+	// device nodes: /dev/null itself as the root; where the sandbox permits
+	// mknod, a character device at every directory position of the smaller trees
+	if fi, err := os.Lstat("/dev/null"); err == nil && fi.Mode()&os.ModeCharDevice != 0 {
+		cases = append(cases, fsCase{Root: fsSpec{Kind: "Cdev"}, Reject: true})
+	} else {
+		r.Cap("no character device /dev/null here: device-root case skipped")
+	}
+	if probe := filepath.Join(scratchBase(), fmt.Sprintf("verif-c18-mknod-%d", os.Getpid())); syscall.Mknod(probe, syscall.S_IFCHR|0o666, 1<<8|3) == nil {
+		os.Remove(probe)
+		cases = append(cases, fsCase{Root: fsSpec{Kind: "C"}, Reject: true})
+		for _, t := range enumFsTrees(max - 2) {
+			for _, v := range withSpecial(t, "C") {
+				cases = append(cases, fsCase{Root: v, Reject: true})
+			}
+		}
+		r.Set("device_nodes", "mknod permitted: character devices inside trees")
+	} else {
+		r.Set("device_nodes", "mknod not permitted: only /dev/null as root")
+	}
 	// estimate = n*(namelen+36): 1110*236 = 261960 (plain), 1111*236 = 262196 (sharded)
 	cases = append(cases,
 		fsCase{Root: fsSpec{Kind: "D", NGen: 1110, NameLen: 200}},
